@@ -930,6 +930,7 @@ type stepObs struct {
 	nodes      []nodeObs
 	mutated    bool
 	releasedAt time.Duration
+	maxGap     time.Duration // longest scheduling gap the harness' heartbeat saw during the step
 }
 
 type obs struct {
@@ -1094,6 +1095,35 @@ func run(c *Case) *obs {
 		r        time.Duration
 		panicked string
 	}
+	// heartbeat: how badly is this process being starved right now?  Timing-based judgements are
+	// only made for steps during which the heartbeat never paused for more than stallGap.
+	var maxGap, lastBeat atomic.Int64 // lastBeat: nanoseconds since t0
+	t0 := time.Now()
+	stopBeat := make(chan struct{})
+	defer close(stopBeat)
+	go func() {
+		for {
+			select {
+			case <-stopBeat:
+				return
+			case <-time.After(5 * time.Millisecond):
+			}
+			now := int64(time.Since(t0))
+			if g := now - lastBeat.Load(); g > maxGap.Load() {
+				maxGap.Store(g)
+			}
+			lastBeat.Store(now)
+		}
+	}()
+	// longest pause seen since the last reset, including one that is still going on (after a pause
+	// everything becomes runnable at once and the heartbeat may not have had its turn yet)
+	pause := func() time.Duration {
+		g := maxGap.Load()
+		if cur := int64(time.Since(t0)) - lastBeat.Load(); cur > g {
+			g = cur
+		}
+		return time.Duration(g)
+	}
 	limit := timeout + returnGuard
 	if c.Service == "immediate" {
 		limit = immediateSlow + returnGuard
@@ -1131,12 +1161,25 @@ func run(c *Case) *obs {
 			res.err = submit(ctx, svc, st.Kind, p)
 			res.r = time.Since(start)
 		}()
+		maxGap.Store(0)
+		// Watchdog in *effective* time: a pause of the whole process (loaded machine) counts for at
+		// most 30 ms, so the limit only expires after the submitter really had that much time to run.
 		var res result
-		select {
-		case res = <-done:
-			so.returned = true
-		case <-time.After(time.Until(start.Add(limit))):
+		for eff, last := time.Duration(0), start; eff < limit && !so.returned; {
+			select {
+			case res = <-done:
+				so.returned = true
+			case <-time.After(10 * time.Millisecond):
+				now := time.Now()
+				g := now.Sub(last)
+				if g > 30*time.Millisecond {
+					g = 30 * time.Millisecond
+				}
+				eff += g
+				last = now
+			}
 		}
+		pauseAtReturn := pause()
 		fullAll := func() bool {
 			all := true
 			for i, n := range nodes {
@@ -1151,14 +1194,24 @@ func run(c *Case) *obs {
 		if so.returned && enough && st.Cancel == "" {
 			// isolation: with enough process concurrency every node is offered everything
 			// while the bad nodes (of this and of earlier submissions) are still bad
-			deadline := time.Now().Add(deliverCeil)
-			for !fullAll() && time.Now().Before(deadline) {
+			for eff, last := time.Duration(0), time.Now(); !fullAll() && eff < deliverCeil; {
 				time.Sleep(500 * time.Microsecond)
+				now := time.Now()
+				g := now.Sub(last)
+				if g > 20*time.Millisecond {
+					g = 20 * time.Millisecond
+				}
+				eff += g
+				last = now
 			}
 		} else {
 			fullAll()
 		}
 		so.releasedAt = time.Since(start)
+		so.maxGap = pause()
+		if pauseAtReturn > so.maxGap {
+			so.maxGap = pauseAtReturn
+		}
 		close(w.stepRelease[s])
 		so.r, so.err, so.panicked = res.r, res.err, res.panicked
 		if !so.returned {
@@ -1187,11 +1240,11 @@ func run(c *Case) *obs {
 	}
 	close(w.releaseAll)
 
-	// quiescence: nothing in flight and (every node offered everything, or nothing moves any more)
-	deadline := time.Now().Add(quiesceCeil)
-	lastMove := time.Now()
+	// quiescence: nothing in flight and (every node offered everything, or nothing moves any more);
+	// both ceilings in effective time (a pause of the process counts for at most 20 ms)
 	lastCalls := -1
-	for time.Now().Before(deadline) {
+	var eff, still time.Duration
+	for last := time.Now(); eff < quiesceCeil; {
 		inflight, complete, calls := 0, true, 0
 		for s := range c.Steps {
 			if !o.steps[s].ran {
@@ -1209,16 +1262,23 @@ func run(c *Case) *obs {
 		if inflight == 0 && complete {
 			break
 		}
+		time.Sleep(time.Millisecond)
+		now := time.Now()
+		g := now.Sub(last)
+		if g > 20*time.Millisecond {
+			g = 20 * time.Millisecond
+		}
+		last = now
+		eff += g
 		if inflight == 0 && calls == lastCalls {
 			// nothing has moved for 1.5 s: vouch is not going to call anybody any more
-			if time.Since(lastMove) > 1500*time.Millisecond {
+			if still += g; still > 1500*time.Millisecond {
 				break
 			}
 		} else {
-			lastMove = time.Now()
+			still = 0
 		}
 		lastCalls = calls
-		time.Sleep(time.Millisecond)
 	}
 	time.Sleep(2 * time.Millisecond) // room for a surplus call to show up
 	for s := range c.Steps {
@@ -1288,7 +1348,13 @@ func judgeStep(t ev.TB, c *Case, o *obs, s int) bool {
 
 	// (c) time bound -- whatever the caller's context does
 	if c.Service == "multinode" && (!so.returned || so.r > timeout+returnGuard) {
-		violation(t, "late-return:"+k, c, "%s: timeout %v but the call had not returned after %v", where, timeout, timeout+returnGuard)
+		if so.maxGap > 2*stallGap {
+			// the whole process was paused for a sizeable part of the timeout during this step
+			// (loaded machine): the submitter's own goroutines were paused too, nothing can be said
+			ev.Label("stalled-not-judged")
+			return false
+		}
+		violation(t, "late-return:"+k, c, "%s: timeout %v but the call had not returned after %v (returned=%v at %v wall; watchdog in effective time; longest pause of the process during the step %v; nodes: %s)", where, timeout, timeout+returnGuard, so.returned, so.r, so.maxGap, describe(so))
 		return false
 	}
 	if c.Service == "immediate" && !so.returned {
@@ -1376,7 +1442,10 @@ func judgeStep(t ev.TB, c *Case, o *obs, s int) bool {
 		violation(t, "false-success:"+k+":"+present[0], c, "%s", detail)
 		return true
 	}
-	if !success && okEarly && st.Cancel == "" {
+	if !success && okEarly && st.Cancel == "" && so.maxGap > stallGap {
+		// the process was paused for longer than the guard band tolerates: not judged
+		ev.Label("stalled-not-judged")
+	} else if !success && okEarly && st.Cancel == "" {
 		cl := ""
 		for i := range so.nodes {
 			if no := &so.nodes[i]; no.ok == "yes" && no.done && no.full && no.finished <= earlyBy {
@@ -1387,6 +1456,15 @@ func judgeStep(t ev.TB, c *Case, o *obs, s int) bool {
 		violation(t, "missed-success:"+k+":"+cl, c, "%s: error %q returned at %v although a node had answered (%s) within %v of a %v timeout; nodes: %s", where, so.err, so.r, cl, earlyBy, timeout, describe(so))
 	}
 	return true
+}
+
+func notReturned(o *obs) int {
+	for s := range o.steps {
+		if o.steps[s].ran && !o.steps[s].returned {
+			return s
+		}
+	}
+	return -1
 }
 
 func describe(so *stepObs) string {
@@ -1407,6 +1485,10 @@ func describe(so *stepObs) string {
 // violation of this process further (new) candidates are not executed, which
 // ends the shrinking with the smallest failing case found so far.
 const shrinkBudget = 15 * time.Second
+
+// stallGap: a step during which the harness' 5 ms heartbeat paused for longer
+// than this is not judged on guard-band timing (missed success).
+const stallGap = 100 * time.Millisecond
 
 var (
 	shrinkMu       sync.Mutex
@@ -1449,6 +1531,20 @@ func check(t ev.TB, c *Case) {
 	if o.harness != "" {
 		ev.Inconclusive(o.harness)
 		t.Fatalf("harness: %s", o.harness)
+	}
+	if s := notReturned(o); s >= 0 {
+		// "Did not return by timeout + guard" is only believed when it happens again on an
+		// immediate second execution of the same history (a call that is never woken up does so
+		// every time; a machine that was stalled does not).
+		o2 := run(c)
+		if o2.harness != "" {
+			ev.Inconclusive(o2.harness)
+			t.Fatalf("harness: %s", o2.harness)
+		}
+		if notReturned(o2) != s {
+			ev.Label("late-return-not-reproduced")
+		}
+		o = o2
 	}
 
 	// evidence
